@@ -78,7 +78,7 @@ class Tr:
         if isinstance(node, ast.Name):
             return self.types.get(lname(node.id))
         if isinstance(node, ast.Call) and src(node.func) == 'numpy.exp':
-            return 'AR' if 'exp_fn' not in self.spec else 'Rat'
+            return self.spec.get('exp_ty', 'AR' if 'exp_fn' not in self.spec else 'Rat')
         if isinstance(node, ast.Subscript):
             t = self.ty(node.value)
             if t and t.startswith('List '):
@@ -100,11 +100,11 @@ class Tr:
             if isinstance(v, int):
                 return str(v) if v >= 0 else '(%d)' % v
             if isinstance(v, float):
-                if want == 'AR':
+                if want in ('AR', 'ARX'):
                     if v == 1.0:
-                        return 'AR.one'
+                        return want + '.one'
                     if v == 0.0:
-                        return 'AR.zero'
+                        return want + '.zero'
                     raise Unsupported('float literal %r as an acceptance probability' % v)
                 f = Fraction(v)
                 if f.denominator == 1:
@@ -202,6 +202,8 @@ class Tr:
     def compare(self, left, op, right):
         if self.ty(right) == 'AR' and isinstance(op, ast.LtE):
             return '(Src.uLe %s %s)' % (self.expr(left), self.expr(right))
+        if self.ty(right) == 'ARX' and isinstance(op, ast.LtE):
+            return '(ARX.uLe %s %s)' % (self.expr(left), self.expr(right))
         a, b = self.expr(left), self.expr(right)
         sym = {ast.Eq: '=', ast.NotEq: '≠', ast.Lt: '<', ast.LtE: '≤', ast.Gt: '>', ast.GtE: '≥'}.get(type(op))
         if sym is None:
@@ -593,6 +595,19 @@ KERNELS = [
                'self.proposal_dist.logpdf(proposal, current_pos)': 'fwd'},
          draws={'self.random_generator.uniform()': 'us'},
          assume_false=['numpy.isnan(ar)'], ret_extra='us'),
+    # the same method over IEEE-extended values (vanishing likelihood, nan): what the code does where the
+    # rational model has no value (C01, EpsieProps/C01SourceExt.lean)
+    dict(name='acceptanceRatioX', file='epsie/chain/chain.py', cls='Chain', func='_acceptance_ratio',
+         params=[('logp', 'EL'), ('logl', 'EL'), ('beta', 'EL'), ('current_logp', 'EL'),
+                 ('current_logl', 'EL'), ('symmetric', 'Bool'), ('rev', 'EL'), ('fwd', 'EL'),
+                 ('us', 'List Rat')], ret='(Bool × ARX) × List Rat',
+         types={'ar': 'ARX', 'logar': 'EL'},
+         bind={'self.beta': 'beta', 'self.proposal_dist.symmetric': 'symmetric',
+               'self.proposal_dist.logpdf(current_pos, proposal)': 'rev',
+               'self.proposal_dist.logpdf(proposal, current_pos)': 'fwd',
+               'numpy.isnan(ar)': 'ARX.isNan ar'},
+         draws={'self.random_generator.uniform()': 'us'}, exp_fn='ARX.ofExp', exp_ty='ARX',
+         raise_value='((false, ARX.nan), us)', ret_extra='us'),
     # --- Chain.step: what is evaluated, decided and written where (C01, C08, C18); the transdimensional
     #     bookkeeping (`_state` entries) is C10's model and is not translated here
     dict(name='stepCore', file='epsie/chain/chain.py', cls='Chain', func='step',
@@ -875,7 +890,7 @@ def generate():
     parts = ['/-\n  GENERATED by harness/gen_source.py from the Python sources under %s -- do not edit.\n'
              '  Each definition is the translation of one method (or of the named statements of one method);\n'
              '  the tie theorems are in EpsieProps/*Source.lean.\n-/\n'
-             'import EpsieModel.SrcPrelude\nset_option linter.unusedVariables false\nnamespace Epsie\nnamespace Gen\n' % 'the repository']
+             'import EpsieModel.SrcPrelude\nimport EpsieModel.ExtLog\nset_option linter.unusedVariables false\nnamespace Epsie\nnamespace Gen\n' % 'the repository']
     status = {}
     for spec in KERNELS:
         try:
